@@ -60,8 +60,12 @@ class NativeText:
     utf8 = staticmethod(lambda s: s.encode("utf-8"))
 
 
+SMALL = ["", "a", "b", "ab", " a", "é", "é"]
+
+
 def texts(E, names):
-    """symbolic: one tuple of opaque constants; native: every combination from the battery"""
+    """symbolic: one tuple of opaque constants; native: every combination from the battery (a compact battery when
+    four texts are needed; it contains pairs with equal concatenation such as ("ab", "") and ("a", "b"))"""
     if E.symbolic:
         from sx import text
         yield tuple(text.fresh(n) for n in names)
@@ -71,7 +75,7 @@ def texts(E, names):
         if pick is not None:
             yield tuple(pick)
             return
-        for combo in itertools.product(BATTERY, repeat=len(names)):
+        for combo in itertools.product(BATTERY if len(names) < 4 else SMALL, repeat=len(names)):
             yield combo
 
 
@@ -143,6 +147,24 @@ def routes(E, R, testnet):
     return "ok"
 
 
+def two_wallets(E, R, testnet):
+    """two wallets built one after the other in the same process from different (mnemonic, passphrase) pairs:
+    the second one's master key is that of its own pair"""
+    for m1, p1, m2, p2 in texts(E, ("m", "p", "m2", "p2")):
+        w1 = E.run(R.base_wallet.BaseWallet.from_mnemonic, m1, p1, testnet)
+        w2 = E.run(R.base_wallet.BaseWallet.from_mnemonic, m2, p2, testnet)
+        for w, m, p in ((w1, m1, p1), (w2, m2, p2)):
+            key, cc = ref_master(E, ref_seed(E, m, p))
+            if not (bool(_valid(E, key)) if E.symbolic else _valid(E, key)):
+                continue
+            if isinstance(w, Raised):
+                E.fail("wallet is built from a mnemonic whose master key is valid (history)")
+                continue
+            E.check_eq([w.master.key, w.master.chain_code], [key, cc], "each wallet holds the master key of its own mnemonic and passphrase")
+            E.check_eq([w.mnemonic, w.password], [m, p], "each wallet records its own mnemonic and passphrase")
+    return "ok"
+
+
 def entropy_route(E, R, nbytes, testnet):
     """wallet from entropy == wallet from the mnemonic that encodes it"""
     ent = E.bytes("ent", nbytes)
@@ -193,6 +215,8 @@ def cases(tier):
     for t in (False, True):
         cs.append(Case("routes[testnet=%s]" % t, "routes", dict(testnet=t), need=("the network flag does not change key material",
                                                                                     "from_mnemonic: master = HMAC-SHA512('Bitcoin seed', seed) halves")))
+    cs.append(Case("two_wallets", "two_wallets", dict(testnet=False), weight=5,
+                   need=("each wallet holds the master key of its own mnemonic and passphrase",)))
     for n in (16, 20, 24, 28, 32):
         cs.append(Case("entropy[%d]" % n, "entropy_route", dict(nbytes=n, testnet=(n % 8 == 0)),
                        need=("from_entropy_hex == from_mnemonic(mnemonic of that entropy)",)))
